@@ -20,16 +20,19 @@ CLAIMS = {
  "C09": ("seq", "SeqTrace compares a Dump backfill taken after every step with EventOf(document) for every document of the specification's state, in CAS order between the markers"),
  "C11": ("seq", "TLC property C11_OtherCollectionsUnchanged on the design; SeqTrace checks that the projection of the same keys in the two other collections and their feeds never changes"),
  "C17": ("seq", "TLC property C17_RevIncrementsByOne on the design; SeqTrace compares $document.revid, the number inside $document, live RevNo and backfill RevNo with the specification's revision after every step"),
+ "C03": ("conc", "RosmarConc (clients, feed, runner at critical-section granularity) is model-checked by TLC for the intended design (NoLostUpdate, AtMostOneReplaces, UpdatesApplied); "
+         "every maximal interleaving TLC finds for two clients x {Set, WriteCas, Update, Incr, Get, Remove, sub-document and xattr variants} is replayed on real goroutines through the gate scheduler and the recorded "
+         "history is validated by SeqTrace in commit order (each result must be the sequential outcome at its linearisation point; Update-style callbacks must be stored on the version they were shown)"),
+ "C15": ("conc", "RosmarConc with a checkpointed feed that is stopped and restarted: TLC checks FinalVersionDelivered and CheckpointNotAboveDelivered on the design; TLC's interleavings of writers, "
+         "deliveries, stop and restart are replayed through the gate scheduler and SeqTrace's feeds line checks that the runs together deliver every final version and that the persisted checkpoint never exceeds what was delivered"),
  "C18": ("seq", "TLC property C18_OnlyAddressedProperty on the design; SeqTrace validates sub-document writes/reads on object bodies (present, absent, nested, through non-objects) against RosmarStore's sub-document operators"),
 }
 PENDING = {
- "C03": "concurrent family (RosmarConc + gate scheduler) not built yet in this round",
  "C04": "HLC family not built yet in this round",
  "C10": "crash family not built yet in this round",
  "C12": "views family not built yet in this round",
  "C13": "lifecycle family not built yet in this round",
  "C14": "expiry family not built yet in this round",
- "C15": "concurrent family not built yet in this round",
  "C16": "feed lifecycle family not built yet in this round",
  "C19": "query family not built yet in this round",
  "C20": "shutdown family not built yet in this round",
@@ -62,7 +65,9 @@ m = {
            "baseline_off_cmd": "cd /repo && GOFLAGS=-mod=mod GOPROXY=off GOSUMDB=off GOTOOLCHAIN=local go test -json -vet=off -count=1 -timeout 25m ./...",
            "source_commits": hooks, "add_only": True},
  "engines": [{"name": "tlc-seq", "path": "/verif/spec", "serves_properties": sorted(p for p, (f, _) in CLAIMS.items() if f == "seq"),
-              "kind_free_text": "RosmarStore/RosmarSeq/GenSeq/SeqTrace TLA+ modules + Go harness (vh seq)"}],
+              "kind_free_text": "RosmarStore/RosmarSeq/GenSeq/SeqTrace TLA+ modules + Go harness (vh seq)"},
+             {"name": "tlc-conc", "path": "/verif/spec", "serves_properties": ["C02", "C03", "C08", "C09", "C15", "C18"],
+              "kind_free_text": "RosmarConc TLA+ module (schedules), gate scheduler + vh conc, SeqTrace feeds-line validation"}],
  "checks": checks,
  "notes": "All checks share family pipelines whose results are cached under /verif/.cache keyed by the hash of /repo's sources, the machinery, the seed and the tier.",
  "not_applicable": [{"property_id": p, "reason": r} for p, r in sorted(PENDING.items())],
